@@ -12,6 +12,7 @@ import (
 
 	"github.com/glebziz/fs_db"
 	"github.com/glebziz/fs_db/config"
+	"github.com/glebziz/fs_db/internal/app"
 	storeService "github.com/glebziz/fs_db/internal/delivery/grpc/store"
 	"github.com/glebziz/fs_db/internal/di"
 	pb "github.com/glebziz/fs_db/internal/proto"
@@ -323,11 +324,16 @@ func (c *loopClient) GetFile(ctx context.Context, in *pb.GetFileRequest, _ ...gr
 func openExternal(cfg config.Config) (fs_db.DB, *di.Container, *loopClient) {
 	nd.SetMode("seqpool", true)
 	nd.Assert(cfg.Storage.Valid() == nil, "loopback.config")
-	c := di.New(cfg)
-	c.Pool().Run(ctx)
-	del, err := c.Core().Load(ctx)
-	nd.Assert(err == nil, "loopback.load")
-	c.Cleaner().DeleteFilesAsync(ctx, del)
-	lc := &loopClient{svc: c.StoreService(), recvFailAfter: -1}
-	return externaldb.VerifNew(lc), c, lc
+	// the real start-up of the server (internal/app.New: container, pool, Load, pending deletions,
+	// scheduled collection, registration of the service); the grpc.Server it builds is a token
+	verifenv.Registered = nil
+	a, err := app.New(ctx, cfg)
+	nd.Assert(err == nil, "loopback.app-new")
+	if err != nil {
+		nd.Assume(false)
+	}
+	svc, ok := verifenv.Registered.(*storeService.Service)
+	nd.Assert(ok, "loopback.service-registered")
+	lc := &loopClient{svc: svc, recvFailAfter: -1}
+	return externaldb.VerifNew(lc), app.VerifContainer(a), lc
 }
